@@ -227,6 +227,34 @@ def run(c, chk):
                     why = str(val)
                 short = desc
                 failures.setdefault(why_class(why), []).append((len(toks), short, why, level))
+    # two items in a row: the skipper must not carry state from one item into the next.  The second item
+    # starts with whatever the first left in the skipper variables.
+    reps = [it for it in gen_items(1, 1)]
+    npairs = 0
+    for toks1, d1 in reps:
+        try:
+            k1, vars1, pos1 = sim.run(list(toks1) + [T['STR']], entry, {k: 0 for k in SKIP_VARS}, False, 0)
+        except SimError:
+            continue
+        if k1 != 'state0' or pos1 != len(toks1):
+            continue
+        for toks2, d2 in reps:
+            npairs += 1
+            try:
+                kind, val, pos = sim.run(list(toks2) + [T['STR']], entry, dict(vars1), False, 0)
+            except SimError as e:
+                kind, val, pos = 'simerror', str(e), -1
+            if not (kind == 'state0' and pos == len(toks2)):
+                if kind == 'state0':
+                    why = 'skipping stops after %d of %d tokens' % (pos, len(toks2)) if pos < len(toks2) else 'skipping runs past the end of the item'
+                elif kind == 'diag':
+                    why = 'diagnostic %r in state %d on token %s' % (val[2], val[0], pm.TOKNAME.get(val[1], val[1]))
+                elif kind == 'ret':
+                    why = 'the parser returns %s in the middle of the item' % pm.RET.get(val, val)
+                else:
+                    why = str(val)
+                failures.setdefault('after-item:' + why_class(why), []).append((len(toks1) + len(toks2), '%s ; %s' % (d1, d2), 'as the second unknown item: ' + why, 0))
+    chk.extra['item_pairs'] = npairs
     for cls, lst in sorted(failures.items()):
         lst.sort()
         n, short, why, level = lst[0]
